@@ -168,7 +168,7 @@ def read_swan(filename, dirorder=True, as_site=False):
             {"units": "m^{2}.s", "_units": "m^{2}.s", "_variable_name": "VaDens"}
         )
 
-    return dset
+    return dset.sortby(attrs.TIMENAME)
 
 
 def read_swans(
